@@ -54,7 +54,7 @@ def run_scenario(chk, sc, cfgseed, ndims):
     classes = [[rng.choice([1, 2]) for _ in range(nb)] for nb in sc["nbs"]]
     layouts = [rand_layout(rng, nb) for nb in sc["nbs"]]
     ap = gamma.make_ap("A", sc["names"], classes, layouts, ndims=ndims, time=cfg.time)
-    d = os.path.join(chk.tmp(), "p")
+    d = os.path.join(chk.tmp_reuse(), "p")
     os.makedirs(os.path.dirname(d))
     reg = gamma.write_plotfile(d, ap, cfg)
     A = alpha.abstract(d, reg)
@@ -137,6 +137,8 @@ def run_scenario(chk, sc, cfgseed, ndims):
                         return "level %d: no %s table exposed" % (l, which)
                     for i, k in enumerate(keys):
                         col = [row[i] for row in C[key]]
+                        if k not in pc[key]:
+                            return "level %d: the %s table has no entry for field %r (fields exposed there: %r)" % (l, which, k, sorted(pc[key]))
                         if not seq_eq(pc[key][k], col):
                             return "level %d %s[%r] = %r, level header states %r" % (l, which, k, list(pc[key][k]), col)
     return None
